@@ -400,6 +400,106 @@ Definition derive_order (n : N) : list N :=
   ++ (if N.ltb 0 n then [0%N] else [])
   ++ nrange 128 (N.to_nat n - 128).
 
+(* ================= range proofs (proof.go:VerifyRangeProof) ================= *)
+(* the monotonicity guard, as the Go loop:
+     for i := 0; i < len(keys)-1; i++ { if bytes.Compare(keys[i], keys[i+1]) >= 0 { return error } } *)
+Fixpoint strict_inc (ks : list (list N)) : bool :=
+  match ks with
+  | a :: r => match r with b :: _ => kltb a b | [] => true end && strict_inc r
+  | [] => true
+  end.
+
+(* what an accepted (keys, values) list claims about the trie it was verified against: the keys are
+   strictly increasing and replaying the list (the verifier's own TryUpdate loop; an empty value
+   deletes) onto the trie changes nothing.  [range_nonstrict_refuted] shows that the second half
+   alone is not enough. *)
+Definition range_ok (t : node) (ps : list (list N * list N)) : bool :=
+  strict_inc (map fst ps) &&
+  match run t ps with Some t' => node_eqb t' t | None => false end.
+
+(* ================= trie.Database: holders of committed roots (database.go) ================= *)
+(* The garbage-collected memory layer at the granularity of ROOTS (a root's inner nodes live and
+   die with it, sharing only keeps more alive).  Roots are numbered; the parent is always the meta
+   root common.Hash{} (Reference(root, {}) / Dereference(root), what core/state_processor.go does per
+   block).  [pres] = the root is in db.dirties, [disk] = it was flushed, [parents] = node.parents,
+   [mkids] = db.dirties[{}].children[root].  [hold] is a ghost: the number of holders, i.e.
+   References of an openable root minus Dereferences -- what the callers believe. *)
+Record dbst := mkdb { pres : nat -> bool; disk : nat -> bool; parents : nat -> nat; mkids : nat -> nat; hold : nat -> nat }.
+
+Definition fupd {A : Type} (f : nat -> A) (r : nat) (x : A) : nat -> A :=
+  fun r' => if Nat.eqb r' r then x else f r'.
+
+Definition db0 : dbst := mkdb (fun _ => false) (fun _ => false) (fun _ => O) (fun _ => O) (fun _ => O).
+
+(* database.go:insert (reached from Trie.Commit): "If the node's already cached, skip", else a new
+   entry with parents = 0 *)
+Definition db_ins (s : dbst) (r : nat) : dbst :=
+  if pres s r then s
+  else mkdb (fupd (pres s) r true) (disk s) (fupd (parents s) r O) (mkids s) (hold s).
+
+(* database.go:reference(child = r, parent = {}).  [root_dup] = the clause
+   "If the reference already exists, only duplicate for roots" (`ok && parent != (common.Hash{})`)
+   lets the meta root hold a root several times; root_dup = false is the code without it. *)
+Definition db_ref (root_dup : bool) (s : dbst) (r : nat) : dbst :=
+  if negb (pres s r) then
+    (* "If the node does not exist, it's a node pulled from disk, skip" *)
+    if disk s r then mkdb (pres s) (disk s) (parents s) (mkids s) (fupd (hold s) r (S (hold s r))) else s
+  else if Nat.ltb 0 (mkids s r) && negb root_dup then
+    mkdb (pres s) (disk s) (parents s) (mkids s) (fupd (hold s) r (S (hold s r)))
+  else
+    mkdb (pres s) (disk s) (fupd (parents s) r (S (parents s r))) (fupd (mkids s) r (S (mkids s r)))
+         (fupd (hold s) r (S (hold s r))).
+
+(* database.go:dereference(child = r, parent = {}); natural-number subtraction is the guarded
+   decrement (`if node.parents > 0 { node.parents-- }`) *)
+Definition db_deref (s : dbst) (r : nat) : dbst :=
+  let mk := fupd (mkids s) r (mkids s r - 1) in
+  let hd := fupd (hold s) r (hold s r - 1) in
+  if negb (pres s r) then mkdb (pres s) (disk s) (parents s) mk hd
+  else
+    let p := parents s r - 1 in
+    if Nat.eqb p 0 then mkdb (fupd (pres s) r false) (disk s) (fupd (parents s) r O) mk hd
+    else mkdb (pres s) (disk s) (fupd (parents s) r p) mk hd.
+
+(* database.go:Commit(root): written to disk and uncached (references are not touched) *)
+Definition db_flush (s : dbst) (r : nat) : dbst :=
+  if pres s r then mkdb (fupd (pres s) r false) (fupd (disk s) r true) (parents s) (mkids s) (hold s) else s.
+
+(* database.go:Cap(0): the whole flush list goes to disk *)
+Definition db_capall (s : dbst) : dbst :=
+  mkdb (fun _ => false) (fun r => disk s r || pres s r) (parents s) (mkids s) (hold s).
+
+(* a new trie.Database over the same disk: the memory layer and every holder are gone *)
+Definition db_reopen (s : dbst) : dbst :=
+  mkdb (fun _ => false) (disk s) (fun _ => O) (fun _ => O) (fun _ => O).
+
+Inductive dbop :=
+| DIns (r : nat) | DRef (r : nat) | DDeref (r : nat) | DFlush (r : nat) | DCapAll | DReopen
+| DObs (r : nat) (openable : bool).   (* observation: can the root be opened and fully walked? *)
+
+Definition db_step (root_dup : bool) (s : dbst) (o : dbop) : dbst :=
+  match o with
+  | DIns r => db_ins s r
+  | DRef r => db_ref root_dup s r
+  | DDeref r => db_deref s r
+  | DFlush r => db_flush s r
+  | DCapAll => db_capall s
+  | DReopen => db_reopen s
+  | DObs _ _ => s
+  end.
+
+Definition db_run (root_dup : bool) (ops : list dbop) (s : dbst) : dbst := fold_left (db_step root_dup) ops s.
+
+Definition db_openable (s : dbst) (r : nat) : bool := pres s r || disk s r.
+
+(* correspondence: a root with a holder (or a persisted one) was observed openable *)
+Fixpoint db_crun (s : dbst) (ops : list dbop) : bool :=
+  match ops with
+  | [] => true
+  | DObs r b :: rest => implb (Nat.ltb 0 (hold s r) || disk s r) b && db_crun s rest
+  | o :: rest => db_crun (db_step true s o) rest
+  end.
+
 (* ================= correspondence cases ================= *)
 Inductive cop :=
 | CUpd (k v : list N)          (* TryUpdate (empty v = delete) *)
@@ -505,7 +605,9 @@ Definition decode_mop (o : rmcop) : mcop :=
 Inductive cbody :=
 | BTrie (ops : list rcop)
 | BMulti (ops : list rmcop)
-| BOrder (n : N) (keys : list int).   (* the keys, each preceded by its length, concatenated and packed *)
+| BOrder (n : N) (keys : list int)   (* the keys, each preceded by its length, concatenated and packed *)
+| BRange (d : dnode) (qs : list (list (list int * list int)))   (* the trie, and the lists VerifyRangeProof accepted *)
+| BDb (ops : list dbop).              (* a history over one trie.Database with observations *)
 
 Definition frame_keys (ks : list (list N)) : list N :=
   flat_map (fun k => N.of_nat (length k) :: k) ks.
@@ -516,6 +618,10 @@ Definition case_ok (c : case) : bool :=
   | BTrie ops => crun Nil (map decode_op ops)
   | BMulti ops => mcrun [Nil] (map decode_mop ops)
   | BOrder n keys => keqb (frame_keys (map rlp_uint (derive_order n))) (unpack keys)
+  | BRange d qs =>
+      let t := undump d in
+      forallb (fun q => range_ok t (map (fun kv => (unpack (fst kv), unpack (snd kv))) q)) qs
+  | BDb ops => db_crun db0 ops
   end.
 Definition mismatches (cs : list case) : list N :=
   map fst (filter (fun c => negb (case_ok c)) cs).
